@@ -163,6 +163,9 @@ def assign(self: Interp, target, val, st: State):
         st.env[target.id] = val
         return
     if isinstance(target, (ast.Tuple, ast.List)):
+        if isinstance(val, Opt):
+            self.safety(st, znot(val.is_none), "unpack-not-None", target)
+            val = val.val
         items = None
         if isinstance(val, VTuple):
             items = val.items
@@ -723,6 +726,10 @@ def x_With(self: Interp, s: ast.With, st: State):
         for o in self.exec_block(s.body, s2):
             # __exit__ runs on every exit of the body
             self.cm_exit(cm, tok, o)
+            sup = getattr(cm, "_suppressed", None) if isinstance(cm, Opaque) else None
+            if sup and o.kind == "raise" and isinstance(o.value.cls, str) and \
+                    any(o.value.cls == c or self.repo.exc_is_subclass(o.value.cls, c) for c in sup):
+                o = Outcome("normal", o.state)   # contextlib.suppress swallows the listed exceptions
             results.append(o)
     return results
 
